@@ -38,10 +38,11 @@ CLAIMS = {
              'buffer layout; ZoneAlloc rejects frames below its offset.', 'DESIGN.md 6 C08'),
     'C09': P('"No panic" is a side obligation of every discharged contract (Kani checks every reachable panic, overflow, index): all lower operations for all states under wf_lower, '
              'all allocator-level paths under invariant I for every kind-policy incl. zero-slot classes, init with 0 frames, recovery with partial trees.', 'DESIGN.md 6 C09'),
-    'C10': P('Targeted allocation at the lower level succeeds iff the block is free (all states); drain returns every slot counter and leaves no tree reserved. '
-             'The allocator-level completeness of the search ("fails only when nothing is free") is not decided in this revision.', 'DESIGN.md 6 C10'),
-    'C11': P('Contract of Tree::sync_steal taken from the statement (succeeds iff reserved and global counter >= missing frames) over all tree words, and get_local preserves I. '
-             'The end-to-end completeness over the search is not decided in this revision.', 'DESIGN.md 6 C11'),
+    'C10': P('After a drain (no slot holds a tree, never-Invalid policy) a base-order allocation fails only if no frame outside offline trees is free: proved modularly - every inner '
+             'helper meets the completeness contract C0 (a failure changes nothing and implies the tree was reserved / empty / Invalid), search_best visits every acceptable tree, LLFree::get '
+             'is checked against those contracts. Targeted allocation: lower level Ok iff the block is free (all states); allocator level in the thorough tier (c10_drained_targeted_2c, all real bodies).', 'DESIGN.md 6 C10, 12'),
+    'C11': P('Tree::sync_steal has the statement\'s threshold (all tree words); get_local fails only if slot and held tree are exhausted (C0); search_and_reserve fails only if every other '
+             'tree is reserved or empty; LLFree::get with one class and one slot, checked against these contracts, reports out-of-memory only if no frame is free - all states under invariant I.', 'DESIGN.md 6 C11, 12'),
     'C12': P('set_first_zeros for all 2^512 bitfield states and every order (Err iff no aligned free block, via a universally quantified witness), lifted to Lower::get over all '
              'states of a tree under wf_lower, every start hint, every order.', 'DESIGN.md 6 C12'),
     'C13': P('Tree::steal / reserve_or_steal over all tree words and every pure policy; every allocator-level allocation path returns the requested class or one rated Match/Steal '
